@@ -49,6 +49,8 @@ func runC13(c *Ctx) {
 	c.NotDec = []string{"byte-identical reassembly for all arrival orders (value-level)", "collision resistance of the hashes", "generated protobuf marshalling"}
 	c.Floors["G"] = 25
 	c.Floors["S"] = 120
+	// the parts of a stored block are read back under the keys they were written under: one key per (height, index)
+	c.rawdbKeyWidths()
 
 	addPartRules(c)
 	if fn := c.Fn("types", "PartSet", "IsComplete"); fn != nil {
